@@ -6,7 +6,7 @@ if ! git diff --quiet; then echo "/repo has uncommitted changes"; exit 2; fi
 git apply "$P" || { echo "patch does not apply"; exit 2; }
 for id in "$@"; do
   cd /verif
-  out=$(./check "$id" --tier quick 2>&1); rc=$?
+  out=$(VERIF_EVIDENCE_DIR=/verif/target/mutant-evidence ./check "$id" --tier ${MUTANT_TIER:-quick} ${MUTANT_ARGS:-} 2>&1); rc=$?
   echo "== $id rc=$rc $(echo "$out" | grep -m1 -E 'violation:|INCONCLUSIVE' | cut -c1-300)"
 done
 cd /repo && git checkout -- . && git status --short | grep -v renaming.gif
